@@ -89,6 +89,8 @@ def battery_case():
             "kw": st.lists(st.tuples(st.sampled_from(["lang", "class_", "data_z"]), gen.safe_text(1, 3)).map(list), max_size=2, unique_by=lambda p: p[0]),
             "payloads": st.lists(st.one_of(payload(), payload(), big_payload()), max_size=2),
             "html_root": st.booleans(),
+            "fail_first": st.sampled_from([None, None, "untagified", "repr-raises"]),
+            "label": st.sampled_from(["x<y", "a", "", "&amp;"]),
             "ops": st.lists(
                 st.one_of(
                     st.tuples(st.just("add_class"), st.integers(0, 5), st.sampled_from(["a", "b", "c d", "e"]), st.booleans()).map(list),
@@ -170,6 +172,7 @@ def body_replay(case, note):
         r0 = o["results"]["0"]
         check(r0.get("doc") == r0.get("doc_again") and r0.get("page") == r0.get("page_again"), "rendering the same document object twice in one process gave different markup")
         check(r0.get("arg_history_ok") is not False, "a document object rendered with other arguments before answers differently from a fresh one")
+        check(r0.get("after_failed_ok") is not False, "objects whose earlier rendering raised half way render differently from freshly built equal objects once the cause is removed")
         check(not o["mismatches"], f"same case rendered twice in one process (PYTHONHASHSEED={hs}) gave different results")
         check(o["results"]["0"] == ref["results"]["0"], f"case differs between PYTHONHASHSEED={outs[0][0]} and {hs}", ref["results"]["0"], o["results"]["0"])
     note(True)
@@ -188,6 +191,9 @@ def run_processes(ctx):
             r = o["results"].get(str(i))
             if r is None:
                 continue
+            if r.get("after_failed_ok") is False:
+                ctx.extra["case"] = {"battery_case": battery[i], "hashseed": hs, "what": "objects whose earlier rendering raised render differently afterwards"}
+                raise Violation(f"case {i}: objects whose earlier rendering raised half way render differently from freshly built equal objects once the cause is removed")
             if r.get("arg_history_ok") is False:
                 ctx.extra["case"] = {"battery_case": battery[i], "hashseed": hs, "what": "a document object rendered with other arguments before answers differently from a fresh one"}
                 raise Violation(f"case {i}: a document object that was rendered with other lib_prefix / include_version before renders differently from a fresh one")
@@ -217,6 +223,7 @@ def run_processes(ctx):
     ctx.rec.bulk_nontrivial += nontrivial
     ctx.rec.classes["children"] += len(outs)
     ctx.rec.classes["battery_cases"] += len(battery)
+    ctx.rec.classes["cases-with-earlier-failed-rendering"] += sum(1 for c in battery if c.get("fail_first")) * len(outs)
     ctx.rec.classes["renderings_per_child"] += len(battery) + len(battery[::3])
     ctx.rec.samples = [(0, {"battery_case": battery[0], "hashseeds": seeds[:4]})]
     ctx.extra["hash_seeds"] = seeds
@@ -261,10 +268,28 @@ _UNIQUE = [0]
 
 
 def names_case():
-    return st.fixed_dictionaries({"p": st.one_of(payload(), payload(), big_payload()), "q": payload(), "same": st.booleans(), "confuse": st.sampled_from([None, None, "swap", "swap", "raw", "escaped"])})
+    return st.fixed_dictionaries({"p": st.one_of(payload(), payload(), big_payload()), "q": payload(), "same": st.booleans(), "confuse": st.sampled_from([None, None, "swap", "swap", "raw", "escaped", "plus-dep", "plus-meta"]), "mode": st.sampled_from(["invisible", "invisible", "json"])})
+
+
+INVISIBLE = {
+    "plus-dep": [{"k": "dep", "name": "inner", "version": "1.0", "source": {"href": "https://cdn/i"}, "script": [{"src": "i.js"}], "head": "<inner-head>"}],
+    "plus-meta": [{"k": "meta"}, {"k": "none"}],
+}
 
 
 def body_names(case, note):
+    import htmltools as h
+
+    # names are a function of the rendered content only - not of the global that decides how str() shows dependencies
+    saved = h.html_dependency_render_mode
+    h.html_dependency_render_mode = case.get("mode", "invisible")
+    try:
+        _names_body(case, note)
+    finally:
+        h.html_dependency_render_mode = saved
+
+
+def _names_body(case, note):
     import htmltools as h
 
     p, q = case["p"], case["q"]
@@ -274,11 +299,22 @@ def body_names(case, note):
         q = confuse(p)
     elif case.get("confuse") in ("raw", "escaped"):
         q = twin(p, case["confuse"])
+    elif case.get("confuse") in INVISIBLE:
+        # q = p plus nodes that leave no trace in the rendering (a dependency / bare metadata node inside the payload)
+        q = p[:1] + INVISIBLE[case["confuse"]] + p[1:]
     rp = h.TagList(*[build(x) for x in p]).get_html_string()
     rq = h.TagList(*[build(x) for x in q]).get_html_string()
     hp, hq = h.head_content(*[build(x) for x in p]), h.head_content(*[build(x) for x in q])
     check((hp.name == hq.name) == (rp == rq), "head_content names are equal iff the rendered payloads are equal - violated", (rp, hp.name), (rq, hq.name))
     check(hp.name == h.head_content(*[build(x) for x in p]).name, "head_content name is not a function of the content")
+    other = "json" if h.html_dependency_render_mode == "invisible" else "invisible"
+    cur = h.html_dependency_render_mode
+    h.html_dependency_render_mode = other
+    try:
+        n_other = h.head_content(*[build(x) for x in q]).name
+    finally:
+        h.html_dependency_render_mode = cur
+    check(n_other == hq.name, "head_content name of the same content depends on html_dependency_render_mode at creation time", hq.name, n_other)
     # content never seen before in this process: the payload objects of its first head_content() are changed afterwards;
     # a later, independent head_content() of the same content must not be affected
     _UNIQUE[0] += 1
@@ -303,7 +339,8 @@ def body_names(case, note):
 
     confus = rp != rq and (unicodedata.normalize("NFKC", rp).casefold() == unicodedata.normalize("NFKC", rq).casefold())
     close = rp != rq and (len(rp) == len(rq) or sorted(rp) == sorted(rq) or confus)
-    note(differently_built or close, "equal-content-built-differently" if differently_built else "", "anagram-or-same-length" if close else "", "identical" if core.canon(p) == core.canon(q) else "", "unicode-confusable" if confus else "", "text-vs-markup-twin:" + case["confuse"] if case.get("confuse") in ("raw", "escaped") and not case["same"] else "", "large-payload" if len(rp) > 4096 else "")
+    note(differently_built or close, "equal-content-built-differently" if differently_built else "", "anagram-or-same-length" if close else "", "identical" if core.canon(p) == core.canon(q) else "", "unicode-confusable" if confus else "", "text-vs-markup-twin:" + case["confuse"] if case.get("confuse") in ("raw", "escaped") and not case["same"] else "", "large-payload" if len(rp) > 4096 else "",
+         "payload-plus-invisible-node:" + case["confuse"] if case.get("confuse") in INVISIBLE and not case["same"] else "", "json-mode" if case.get("mode") == "json" else "")
 
 
 RULE = (
@@ -315,5 +352,5 @@ RULE = (
 
 CLAUSES = [
     Clause("processes", body_replay, source="custom", custom=run_processes, rule="see RULE"),
-    Clause("names", body_names, strategy=names_case, quick=1500, thorough=20000, shards_quick=2, required=("equal-content-built-differently", "anagram-or-same-length", "unicode-confusable", "text-vs-markup-twin:raw", "text-vs-markup-twin:escaped", "large-payload"), rule="see RULE"),
+    Clause("names", body_names, strategy=names_case, quick=1500, thorough=20000, shards_quick=2, required=("equal-content-built-differently", "anagram-or-same-length", "unicode-confusable", "text-vs-markup-twin:raw", "text-vs-markup-twin:escaped", "large-payload", "payload-plus-invisible-node:plus-dep", "payload-plus-invisible-node:plus-meta", "json-mode"), rule="see RULE"),
 ]
